@@ -97,6 +97,11 @@ func balCases(tier string) []balCase {
 	// subscription pattern, then every single change (one member's subscription,
 	// a fourth member joining with any subscription, any member leaving).
 	// thorough enumerates all partition-count vectors up to 6; quick draws some.
+	// sticky, growth and joins in one step: two members sharing one topic, then topics grow and 2-4 members
+	// with other subscriptions join (partitions travel over several hops inside one plan)
+	for v := 0; v < 8; v++ {
+		cs = append(cs, balCase{kind: "growjoin", strat: "sticky", subIdx: v})
+	}
 	if tier == "thorough" {
 		for v := 0; v < 216; v++ {
 			cs = append(cs, balCase{kind: "step", strat: "sticky", m: 3, t: 3, maxP: 6, n: 1, subIdx: v})
@@ -631,6 +636,8 @@ func (e *balanceEngine) Run(prop, tier string, seed int64, idx int) proto.Rec {
 		e.step(r, c, rng)
 	case "conflict":
 		e.conflict(r)
+	case "growjoin":
+		e.growJoin(r, c)
 	case "duplists":
 		if prop != "C08" {
 			break // fairness is stated over subscription sets
@@ -1183,6 +1190,56 @@ func (e *balanceEngine) conflict(r *balRun) {
 							return
 						}
 						r.check(in, plan)
+					}
+				}
+			}
+		}
+	}
+}
+
+// growJoin: m0{a,bb} and m3{a,ccc} settle; then a (and ccc) grow and every set of 2-4 joiners out of the six
+// subscription types {a},{bb},{ccc},{a,bb},{bb,ccc},{a,ccc} arrives in the same rebalance.
+func (e *balanceEngine) growJoin(r *balRun, c balCase) {
+	na1 := 2 + c.subIdx&1
+	nb := 4 + 2*((c.subIdx>>1)&1)
+	nc1 := 3 + 2*((c.subIdx>>2)&1)
+	types := [][]string{{"a"}, {"bb"}, {"ccc"}, {"a", "bb"}, {"bb", "ccc"}, {"a", "ccc"}}
+	for _, na2 := range []int{4, 6} {
+		for _, cGrow := range []int{0, 1} {
+			for mask := 1; mask < 64; mask++ {
+				var joiners [][]string
+				for k, t := range types {
+					if mask&(1<<uint(k)) != 0 {
+						joiners = append(joiners, t)
+					}
+				}
+				if len(joiners) < 2 || len(joiners) > 4 {
+					continue
+				}
+				for rep := 0; rep < 2; rep++ {
+					in := &balInput{strat: "sticky", members: map[string]sarama.ConsumerGroupMemberMetadata{}, prior: "none",
+						topics: map[string][]int32{"a": seqParts(na1), "bb": seqParts(nb), "ccc": seqParts(nc1)}}
+					in.members["m0"] = sarama.ConsumerGroupMemberMetadata{Topics: []string{"a", "bb"}}
+					in.members["m3"] = sarama.ConsumerGroupMemberMetadata{Topics: []string{"a", "ccc"}}
+					plan, ok := r.plan(in)
+					if !ok {
+						return
+					}
+					r.check(in, plan)
+					next := withUserData(in, plan, 1, rep == 0)
+					next.prior = "step-grow+join"
+					next.topics = map[string][]int32{"a": seqParts(na2), "bb": seqParts(nb), "ccc": seqParts(nc1 + cGrow)}
+					for j, ts := range joiners {
+						// names that sort between and after the old members
+						next.members[[]string{"m1", "m2", "m4", "m5"}[j]] = sarama.ConsumerGroupMemberMetadata{Topics: ts}
+					}
+					p2, ok := r.plan(next)
+					if !ok {
+						return
+					}
+					r.check(next, p2)
+					if r.prop == "C13" {
+						r.stickiness(in, plan, next, p2, "grow+join", "")
 					}
 				}
 			}
